@@ -71,6 +71,14 @@ def register(reg):
              **same_as('self.exp'))
     contract(reg, f'{M}:Box._parse', ALL, {'self': 'opaque:Model', 'ctx': 'Ctx'}, ret='Val', requires=REQ,
              **same_as('self.exp'))
+    # `>rule`: the included rule's expression when the include was linked, else a parse failure on the unchanged state
+    RL = 'tatsu/peg/rulelike.py'
+    inc = same_as('self._exp')
+    contract(reg, f'{RL}:RuleInclude._parse', ['C01', 'C08'], {'self': 'opaque:Model', 'ctx': 'Ctx'}, ret='Val', requires=REQ,
+             ensures=[('property', 'self._exp is not None'), *inc['ensures']],
+             raises={'FailedParse': [f'(self._exp is None and {SAME}) or (self._exp is not None and not out_ok(self._exp, {OTOP}) and '
+                                     f'{STK} == {OSTK}[:-1] + [out_fail_frame(self._exp, {OTOP})])']},
+             propagates=[GROW])
     contract(
         reg, f'{Sx}:Lookahead._parse', ALL, {'self': 'opaque:Model', 'ctx': 'Ctx'}, ret='Val', requires=REQ,
         ensures=[('property', f'out_ok(self.exp, {FRESH})'), ('property', SAME),
